@@ -127,6 +127,16 @@ def _cover_start():
     out_dir = os.environ.get("VERIF_COVER")
     if not out_dir:
         return None
+    if os.environ.get("VERIF_COVER_BRANCH"):  # branch arcs through coverage.py (present in /venv), one data file per batch
+        import coverage
+        import uuid
+
+        os.makedirs(out_dir, exist_ok=True)
+        root_ = os.path.join(os.path.realpath(os.environ.get("VERIF_REPO", "/repo")), "rpylib")
+        cov = coverage.Coverage(branch=True, data_file=os.path.join(out_dir, "cov." + uuid.uuid4().hex),
+                                include=[root_ + "/*"], config_file=False)
+        cov.start()
+        return ("coverage.py", cov)
     mon = sys.monitoring
     root = os.path.join(os.path.realpath(os.environ.get("VERIF_REPO", "/repo")), "rpylib") + os.sep
     hits = set()
@@ -150,6 +160,10 @@ def _cover_stop(cover, pid):
     if not cover:
         return
     out_dir, hits = cover
+    if out_dir == "coverage.py":
+        hits.stop()
+        hits.save()
+        return
     sys.monitoring.set_events(_COVER_TOOL, 0)
     sys.monitoring.restart_events()
     import uuid
